@@ -60,7 +60,8 @@ RULE = ("per case one configuration drawn from: optimizer in {slsqp, l-bfgs-b, n
         "32 configurations enumerate methods x sampler methods x workloads systematically.  Each configuration is run "
         "under every schedule of the tier (fresh interpreter with PYTHONHASHSEED=0 = reference, and a second run in it; fresh "
         "interpreter with another PYTHONHASHSEED; then in that interpreter: plain, after other different runs with new / reused PluginManager / reused OptimizerContext, the same EnOptConfig "
-        "object run before, the same Plan and step objects run before, an evaluator step and an unused EnsembleEvaluator on the same "
+        "object run before, a new default context (no manager argument) after another run registered private prioritized plug-ins on the "
+        "default manager of its own context, the same Plan and step objects run before, an evaluator step and an unused EnsembleEvaluator on the same "
         "configuration object before, complete other runs inside the evaluator, generator-like state (np.random, scipy.stats "
         "distributions) reseeded and drawn from before the run, at every evaluation start and inside every evaluator call) and once more "
         "with another seed; twice (prioritized / appended) on a manager on which earlier runs resolved the bare method names before private "
@@ -207,6 +208,9 @@ def _schedules(tier, rng):
     s = [
         _sched("inproc-plain"),
         _sched("after-others-new-objects", "fresh", 3),
+        # the other run customised the default manager of its own context; the run under test uses a new default context
+        _sched("after-other-run-customised-its-default-context", "default-custom", 2),
+        dict(_sched("inproc-plain-default-context"), default_context=True),
         _sched("after-others-reused-manager", "manager", 3),
         _sched("after-others-reused-context", "context", 3),
         # the SAME validated EnOptConfig object (and context) is run once before: a second run of one configuration
@@ -596,13 +600,18 @@ def _evaluate(variables, ctx):
 class _Session:
     """One PluginManager + OptimizerContext; evaluator and observers dispatch to the run in progress."""
 
-    def __init__(self, manager=None):
+    def __init__(self, manager=None, default=False):
         from ropt.enums import EventType
         from ropt.plan import OptimizerContext
         from ropt.plugins import PluginManager
-        self.manager = PluginManager() if manager is None else manager
         self.run = None
-        self.context = OptimizerContext(evaluator=lambda v, c: self.run.evaluate(v, c), plugin_manager=self.manager)
+        if default:
+            # no manager argument: the context makes its own default manager (what BasicOptimizer and most user code do)
+            self.context = OptimizerContext(evaluator=lambda v, c: self.run.evaluate(v, c))
+            self.manager = self.context.plugin_manager
+        else:
+            self.manager = PluginManager() if manager is None else manager
+            self.context = OptimizerContext(evaluator=lambda v, c: self.run.evaluate(v, c), plugin_manager=self.manager)
         self.context.add_observer(EventType.START_EVALUATION, lambda e: self.run.on_start(e))
         self.context.add_observer(EventType.FINISHED_EVALUATION, lambda e: self.run.on_finished(e))
 
@@ -852,6 +861,15 @@ def _run_schedule(spec, sched, mon, tables=True):
         for i in range(max(0, sched["others"] - 1)):      # (thorough) further, different runs through the same context
             _Run(_variant(spec, i), quiet, mon).execute(session)
         return _Run(spec, sched, mon).execute(session, shared, bundle)
+    if reuse == "default-custom":
+        # another run customises the DEFAULT manager of its own context (no manager argument anywhere); later runs with their
+        # own new default contexts, selecting their methods by discovery (bare names), must not see any of it
+        other = _Session(default=True)
+        other.manager.add_plugin("sampler", "c16other", _private_sampler_plugin(), prioritize=True)
+        other.manager.add_plugin("function_estimator", "c16other", _private_estimator_plugin(), prioritize=True)
+        _Run(_variant(spec, 0), quiet, mon).execute(other)
+        _Run(_variant(spec, 2), quiet, mon).execute(_Session(default=True))
+        return _Run(spec, sched, mon).execute(_Session(default=True))
     for i in range(sched["others"]):
         if reuse == "fresh":
             session = _Session()
@@ -861,7 +879,7 @@ def _run_schedule(spec, sched, mon, tables=True):
             session = _Session(manager)
         _Run(_variant(spec, i), quiet, mon).execute(session)
     if reuse == "fresh":
-        session = _Session()
+        session = _Session(default=sched.get("default_context", False))
     elif reuse == "manager":
         session = _Session(manager)
     return _Run(spec, sched, mon).execute(session)
